@@ -1129,7 +1129,34 @@ func (a *Adversary) vcGames(h uint64) bool {
 	}
 	E := a.newBlock(h, false)
 	var raw *interfaces.ConsensusRawMessage
-	switch a.r.Intn(16) {
+	switch a.r.Intn(18) {
+	case 16, 17: // a genuine NEW_VIEW of an earlier view (held back, or simply late) reaches the correct leader of the current view
+		// after it announced that view; then one more vote for the current view arrives
+		ln := a.w.Nodes[leader]
+		if ln == nil || uint64(ln.St.Height()) != h || uint64(ln.St.View()) != v {
+			return false
+		}
+		var stale *Flight
+		for _, f := range a.w.Seen {
+			m := f.Msg
+			if m != nil && m.Env == ref.EnvNV && m.H == h && m.V < v && m.V > 0 && f.To != leader {
+				stale = f
+			}
+		}
+		if stale == nil {
+			return false
+		}
+		a.w.Mon.Stats["adv stale NEW_VIEW replayed to the leader of a later view"]++
+		sf := a.w.Inject(stale.From, leader, stale.Raw)
+		for i := len(a.w.Pool) - 1; i >= 0; i-- {
+			if a.w.Pool[i] == sf {
+				a.w.TakeFlight(i)
+				break
+			}
+		}
+		a.w.Deliver(sf)
+		a.w.Mon.Stats["delivered adversarial"]++
+		raw = ref.RawVoteMsg(a.mkVote(b, inst, h, v, nil), nil)
 	case 12: // a proof with both block references and not a single signature, next to a block nobody validated
 		bad := a.newBlock(h, true)
 		raw = ref.RawVoteMsg(a.mkVote(b, inst, h, v, a.sigLessProof(h, v-1, bad)), bad)
